@@ -75,6 +75,8 @@ Gets(o) == {i \in DOMAIN o.ops : o.ops[i].k = "get" /\ o.ops[i].c # 0}
 StaleReturned(o) == o.regime = "stale" /\ \E i \in Gets(o) : o.ops[i].c \in {o.primed[k] : k \in DOMAIN o.primed}
 
 Check(c, o) ==
+  IF o.stuck THEN <<"HistoryStuck">>      \* an operation never returned: nothing else can be said about the history
+  ELSE
   (IF StaleReturned(o) THEN <<"NoStaleReturn_concurrent">> ELSE <<>>)
   \o (IF ~Linearizable(o) THEN <<"PoolNotLinearizable">> ELSE <<>>)
 =============================================================================
